@@ -31,7 +31,9 @@ ENTRIES = {
                 "under the header's app version must be accepted and the returned square must be the header's square; "
                 "truncation at every share boundary (also +1 byte and -1 byte), appended shares/bytes (up to the next "
                 "square sizes), crafted oversize payloads (w^2, w^2+1, w^2+w, (w+1)^2 shares whose row starts carry the minimum "
-                "namespaces of the header's row roots), swaps, duplicates, replaced shares, rotation, shares of another block, all-zero shares, "
+                "namespaces of the header's row roots), shares replaced by the tail-padding share (one, all, with a mutated "
+                "byte), the genuine empty block (its header, its ODS, mutated ODS, and other one-share blocks answered "
+                "with padding), swaps, duplicates, replaced shares, rotation, shares of another block, all-zero shares, "
                 "single-byte flips in the namespace / namespace version / info byte / sequence length / data / last "
                 "byte, headers of other blocks (same width, half, double) and headers whose DAH has a column root / row "
                 "root replaced (by another block's, by one of the other axis) or swapped must be rejected; foreign app versions "
@@ -73,6 +75,10 @@ def run(ck):
     r = ck.tlc_mc("MC_ShrexEds", dev, tag="mc_rowsonly", expect_violation="CodeMeetsDemand", workers=1)
     if not r.get("expected_violation_reproduced"):
         raise vf.ToolError("model insensitive: comparing only the row roots does not violate CodeMeetsDemand")
+    dev = ck.cfg_with("MC_ShrexEds.cfg", {"Ks": "{1}", "Dev": '"emptyshort"'}, name="MC_ShrexEds_emptyshort.cfg")
+    r = ck.tlc_mc("MC_ShrexEds", dev, tag="mc_emptyshort", expect_violation="CodeMeetsDemand", workers=1)
+    if not r.get("expected_violation_reproduced"):
+        raise vf.ToolError("model insensitive: an empty-block shortcut keyed on the namespace does not violate CodeMeetsDemand")
     cases = []
     for i, g in enumerate(gen_groups):
         gen = ck.cfg_with("Gen_ShrexEds.cfg", {"Ks": tset(g)}, name=f"Gen_ShrexEds_{i}.cfg")
